@@ -1158,6 +1158,24 @@ class GenericValue(TypedValue):
         return GenericValue(self.typ, [arg.simplify() for arg in self.args])
 
 
+_ELEMENT_CONTAINER_TYPES = frozenset(
+    {
+        tuple,
+        list,
+        set,
+        frozenset,
+        collections.abc.Sequence,
+        collections.abc.MutableSequence,
+        collections.abc.Set,
+        collections.abc.MutableSet,
+        collections.abc.Collection,
+        collections.abc.Iterable,
+        collections.abc.Reversible,
+        collections.abc.Container,
+    }
+)
+
+
 @dataclass(unsafe_hash=True, init=False)
 class SequenceValue(GenericValue):
     """A :class:`TypedValue` subclass representing a sequence of known type.
@@ -1185,6 +1203,21 @@ class SequenceValue(GenericValue):
             args = (AnyValue(AnySource.unreachable),)
         super().__init__(typ, args)
         self.members = tuple(members)
+
+    def get_generic_args_for_type(
+        self, typ: Union[type, super, str], ctx: CanAssignContext
+    ) -> Optional[list[Value]]:
+        args = super().get_generic_args_for_type(typ, ctx)
+        if (
+            args is not None
+            and len(args) == 1
+            and self.members
+            and typ in _ELEMENT_CONTAINER_TYPES
+        ):
+            # The elements are known, even if the class (e.g., a namedtuple)
+            # does not pass a type parameter on to this base.
+            return [self.args[0]]
+        return args
 
     def get_member_sequence(self) -> Optional[Sequence[Value]]:
         """Return the :class:`Value` objects in this sequence. Return
